@@ -54,3 +54,28 @@ Definition spec_remove (pl : list Z) : list Z * Z :=
   | p :: _ => if valid_padding pl then (firstn (length pl - Z.to_nat (p + 1)) pl, 255)
               else (firstn (length pl - 1) pl, 0)
   end.
+
+(* removePaddingSSL30: contents of the padding are not checked *)
+Definition remove_padding_ssl30 (pl : list Z) : list Z * Z :=
+  match rev pl with
+  | [] => (pl, 0)
+  | p :: _ => if p + 1 >? Z.of_nat (length pl) then (pl, 0)
+              else (firstn (Z.to_nat (Z.of_nat (length pl) - (p + 1))) pl, 255)
+  end.
+
+(* halfConn.decrypt, CBC branch, for a record whose MAC over the first clen bytes is valid:
+   the remover is chosen by protocol version (SSLv3 = 0x0300 only), and the record is accepted iff the
+   remover reports good padding and what remains is exactly content ‖ MAC (macSize bytes). *)
+Definition cbc_record_ok (vers clen macSize : Z) (full : list Z) : bool :=
+  let '(out, good) := if vers =? 768 then remove_padding_ssl30 full else remove_padding full in
+  (good =? 255) && (Z.of_nat (length out) =? clen + macSize).
+
+(* specification of the same verdict *)
+Definition spec_record_ok (vers clen macSize : Z) (full : list Z) : bool :=
+  match rev full with
+  | [] => false
+  | p :: _ =>
+    let padlen := Z.of_nat (length full) - clen - macSize in
+    if vers =? 768 then (p + 1 <=? Z.of_nat (length full)) && (p + 1 =? padlen)
+    else valid_padding full && (p + 1 =? padlen)
+  end.
